@@ -34,13 +34,14 @@ def wetTopLoop (F : Fn α) (zCN : α) : Nat → List (Cell α) → α → α →
     let th := pmax x.c.thWP x.th
     wetTopLoop F zCN n xs wx (acc + w * ((th - x.c.thWP) / (x.c.thFC - x.c.thWP)))
 
-/-- the SCS split for a given curve number: `(Runoff, Infl)`. -/
-def scsSplit (p cn : α) : α × α :=
+/-- the SCS split for a given curve number: `(Runoff, Infl)`.
+`Runoff = (term ** 2) / (…)`: `**` on a float scalar is C `pow(term, 2.0)` → `F.pow term 2`. -/
+def scsSplit (F : Fn α) (p cn : α) : α × α :=
   let s := 25400 / cn - 254
   let term := p - (5 / 100) * s
   if term ≤ 0 then (0, p)
   else
-    let r := (term * term) / (p + (1 - 5 / 100) * s)
+    let r := (F.pow term 2) / (p + (1 - 5 / 100) * s)
     (r, p - r)
 
 structure RainOut (α : Type) where
@@ -68,7 +69,7 @@ def rainPartition (F : Fn α) (p : α) (cells : List (Cell α)) (daySub : Nat)
     match cn? with
     | none => none
     | some cn =>
-      let (r, i) := scsSplit p cn
+      let (r, i) := scsSplit F p cn
       some { runoff := r, infl := i, daySub := 0, cn := cn }
   else
     some { runoff := 0, infl := p, daySub := daySub, cn := 0 }
